@@ -62,3 +62,40 @@ class flatten:
         if not is_list(l):
             return [l]
         return flat(l)
+
+
+@contract('hotxlfp.formulas.utils:epoch_seconds', props=['C13'])
+class epoch_seconds:
+    args = dict(date=DATE)
+
+    def spec(date):
+        return (date_us(date) - date_us(datetime.datetime(1970, 1, 1))) / 1000000
+
+
+@contract('hotxlfp.formulas.utils:parse_date', props=['C13', 'C14'])
+class parse_date:
+    args = dict(date=SCALAR)
+
+    def spec(date):
+        if is_err(date) or is_date(date):
+            return date
+        n = text_number(date)
+        if is_numb(n):
+            if n < 0:
+                return NUM
+            return date_of_serial(n)
+        if is_str(n):
+            return dateutil_parse_or_value(n)
+        return VALUE
+
+
+@contract('hotxlfp.formulas.utils:serialize_date', props=['C13'])
+class serialize_date:
+    args = dict(date=DATE)
+
+    def pre(date):
+        # the statement quantifies over date-times from 1 January 1900 on
+        return date_us(date) >= date_us(D1900)
+
+    def spec(date):
+        return serial(date)
